@@ -138,7 +138,11 @@ pub fn check_db(db: &AbsDb, st: &mut Stats) -> Check {
     let before_create = observe(&mut pkg).map_err(|e| Fail::new(format!("{P} unreadable"), e))?;
     match pkg.create_table("AddedTable", vec![Column::build("k").primary_key().int16(), Column::build("v").nullable().string(8)]) {
         Ok(()) => {
-            expected.tables.insert("AddedTable".into(), (vec![ColDef::new("k", Ty::I16).key(), ColDef::new("v", Ty::Str(8)).nullable()], vec![]));
+            // rows with string cells: the new table's stream is written with
+            // the reference width of the database it was added to
+            let new_rows = vec![vec![V::Int(1), V::Str("one".into())], vec![V::Int(2), V::Str("two".into())], vec![V::Int(3), V::Null], vec![V::Int(4), V::Str("one".into())]];
+            pkg.insert_rows(Insert::into("AddedTable").rows(new_rows.iter().map(|r| r.iter().map(|v| v.to_msi()).collect()).collect())).map_err(|e| io("insert into the added table", e))?;
+            expected.tables.insert("AddedTable".into(), (vec![ColDef::new("k", Ty::I16).key(), ColDef::new("v", Ty::Str(8)).nullable()], new_rows));
             if db.with_validation && db.stale_validation {
                 // accepting is fine as long as the result is consistent: one
                 // validation row per column of the new table
